@@ -399,10 +399,13 @@ PROPS["C14"] = dict(
 PROPS["C09"] = dict(
     level="other",
     explanation="argument clauses by contracts: cellToLocalIj / localIjToCell reject mode != 0 with E_OPTION_INVALID leaving outputs untouched; "
-                "gridDistance returns a non-negative distance or an error leaving the output untouched",
+                "gridDistance returns a non-negative distance or an error leaving the output untouched, and E_RES_MISMATCH for differing "
+                "resolutions (cellToLocalIjk's mismatch clause enforced on the real code, gridDistance composed over it); the overflow "
+                "guards ijToIjk, _upAp7Checked, _upAp7rChecked are exact for all non-negative int32 inputs (no arithmetic UB, E_FAILED or a "
+                "normalised result)",
     trusted_base=[], assumptions=[],
-    not_decided=["gridDistance equals the true graph distance, symmetry, 0 for a==b, 1 for neighbours, E_RES_MISMATCH for differing resolutions "
-                 "(decided inside cellToLocalIjk, which is a frame-only contract here)",
+    not_decided=["gridDistance equals the true graph distance, symmetry, 0 for a==b, 1 for neighbours (decided inside cellToLocalIjk, whose "
+                 "functional behaviour is not under contract; its memory-safety jobs run out of memory)",
                  "cellToLocalIj / localIjToCell mutually inverse; localIjToCell returns only valid cells; unit IJ steps between neighbours"],
     level_text="Only the option/argument clauses are proved (unbounded, real code); the relational clauses are not decided in this round.",
     level_note="Category 'other': small part of the statement. Trusts CBMC/DFCC/CaDiCaL.")
@@ -569,10 +572,10 @@ J(name="c05.gridDiskDistancesInternal", props=["C05", "C12", "C18"], harness="c1
   loops=[dict(fn="_gridDiskDistancesInternal", loop=0, locals=["off", "maxIdx"], assigns="off", inv="0 <= off && off < maxIdx"),
          dict(fn="_gridDiskDistancesInternal", loop=1, locals=["i", "out", "distances"],
               assigns="i, __CPROVER_object_whole(out), __CPROVER_object_whole(distances)", inv="0 <= i && i <= 6", dec="6 - i")])
-J(name="c09.localIjkToCell.safe", props=["C09", "C12", "C18"], harness="c12.c", entry="h_localIjkToCell", unwind=17, timeout=1800,
-  enforce=["localIjkToCell/localIjkToCell_safe"], replace=["_upAp7Checked", "_upAp7rChecked"], tier="thorough")
-J(name="c09.cellToLocalIjk.safe", props=["C09", "C12", "C18"], harness="c12.c", entry="h_cellToLocalIjk", unwind=17, timeout=1800,
-  enforce=["cellToLocalIjk/cellToLocalIjk_safe"], tier="thorough")
+J(name="c09.localIjkToCell.safe", props=["C09"], harness="c12.c", entry="h_localIjkToCell", unwind=17, timeout=1800,
+  enforce=["localIjkToCell/localIjkToCell_safe"], replace=["_upAp7Checked", "_upAp7rChecked"], tier="never")   # out of memory (10 GB)
+J(name="c09.cellToLocalIjk.safe", props=["C09"], harness="c12.c", entry="h_cellToLocalIjk", unwind=17, timeout=1800,
+  enforce=["cellToLocalIjk/cellToLocalIjk_safe"], tier="never")   # out of memory (10 GB)
 
 J(name="c13.childPosToCell.safe", props=["C13", "C12", "C01"], harness="c13.c", entry="h_childPosToCell", enforce=["childPosToCell/childPosToCell_safe"],
   replace=["_ipow", "isPentagon"], unwind=17, timeout=900)
@@ -684,3 +687,6 @@ J(name="c12.uncompactCellsSize.unbounded", props=["C12"], harness="c03.c", entry
   replace=["cellToChildrenSize"], checks=NO_CONV, replay=dict(fn="uncompactCellsSize_big", args=[]),
   loops=[dict(fn="uncompactCellsSize", loop=0, locals=["i", "numOut", "numCompacted"], assigns="i, numOut",
               inv="0 <= i && (i <= numCompacted || numCompacted < 0)")])
+
+J(name="c09.cellToLocalIjk.mismatch", props=["C09", "C12"], harness="c12.c", entry="h_cellToLocalIjk", unwind=2,
+  enforce=["cellToLocalIjk/cellToLocalIjk_mismatch"])
